@@ -40,7 +40,7 @@ class C03(Prop):
     design_ref = '§5 C03'
     rule = ('(type, framing, F, metadata length, data length, complete flag, request-n): boundary grid around every multiple of the first/next budgets '
             '(+-4) for F in {64,65,70,127,128,1000} and a dense window 0..W x 0..W at F=64 (W=40 quick, 160 thorough) plus large sizes; each case goes '
-            'fragmenter -> serialize -> parse_or_ignore -> FrameFragmentCache; non-trivial = more than one fragment; distinct = distinct parameter tuple')
+            'fragmenter -> serialize -> parse_or_ignore -> FrameFragmentCache; non-trivial = more than one fragment; distinct = distinct parameter tuple; plus the reconnecting-client scenarios of C01 (a fragmented frame left half-received when the connection goes away, the same stream id used again on the next connection): what is reassembled on the next connection must be exactly what was sent on it')
     assumptions = ['fragments are obtained through Frame.get_next_fragment as the sender does']
 
     def cases(self, rng, tier):
@@ -67,9 +67,21 @@ class C03(Prop):
                         'md': rng.choice([0, 0, rng.randint(0, 3000), rng.randint(0, 200000)]),
                         'd': rng.choice([0, rng.randint(0, 3000), rng.randint(0, 400000 if tier == 'thorough' else 60000)]),
                         'C': rng.random() < 0.5, 'n': rng.choice([1, 2 ** 31 - 1, rng.randint(1, 2 ** 31 - 1)]), 'via': rng.choice(['direct', 'direct', 'sender'])})
+        # reassembly state must not outlive the connection it belongs to: the reconnecting-client scenarios of C01 (a fragmented frame left
+        # half-received when the connection goes away, the same stream id used again on the next connection), judged here for "the receiver
+        # reassembles exactly the original frame"
+        from harness.props import c01
+        for c in c01.PROP.cases(rng, 'quick' if tier == 'quick' else 'thorough'):
+            if c.get('kind') == 'reconnect':
+                out.append({'kind': 'reconnect', 'c01': c})
+                if len([1 for x in out if x.get('kind') == 'reconnect']) >= (60 if tier == 'quick' else 1500):
+                    break
         return out
 
     def run_impl(self, case):
+        if case.get('kind') == 'reconnect':
+            from harness.props import c01
+            return c01.PROP.run_impl(case['c01'])
         from rsocket import frame as F
         from rsocket.frame_fragment_cache import FrameFragmentCache
         from rsocket.payload import Payload
@@ -141,11 +153,15 @@ class C03(Prop):
         return out
 
     def model_lines(self, case, obs):
+        if case.get('kind') == 'reconnect':
+            return []
         return ['frag ty=%d F=%d lp=%d sid=5 n=%d C=%d md=%d d=%d' % (
             TYPES[case['t']], case['F'], case['lp'], case['n'] if case['t'] in ('REQUEST_STREAM', 'REQUEST_CHANNEL') else 0,
             case['C'] if case['t'] in ('PAYLOAD', 'REQUEST_CHANNEL') else 0, case['md'], case['d'])]
 
     def compare(self, case, obs, answers):
+        if case.get('kind') == 'reconnect':
+            return None
         b = lambda x: '1' if x else '0'
         rows = ' '.join('%d:%s%s%s:n%d:%d:%d:w%d' % (r['ty'], b(r['F']), b(r['C']), b(r['N']), r['n'], r['md'], r['d'], r['w']) for r in obs['rows'])
         res = ' '.join(x if isinstance(x, str) else 'F%d:%s%s%s:n%d:%d:%d' % (x['ty'], b(x['F']), b(x['C']), b(x['N']), x['n'], x['md'], x['d'])
@@ -156,6 +172,14 @@ class C03(Prop):
 
     def oracle(self, case, obs):
         fails = []
+        if case.get('kind') == 'reconnect':
+            for who in ('req', 'resp'):
+                if obs['got_' + who] != obs['want_' + who]:
+                    short = lambda l: [[len(a) // 2, len(b) // 2] for a, b in l][:6]
+                    fails.append({'signature': 'reassembly-content:after-reconnect',
+                                  'what': 'fragmented %s sent over the successive connections had (data, metadata) sizes %s, reassembled %s' % (
+                                      {'req': 'requests', 'resp': 'responses'}[who], short(obs['want_' + who]), short(obs['got_' + who]))})
+            return fails
         rows = obs['rows']
         F, lp = case['F'], case['lp']
         ty = TYPES[case['t']]
@@ -211,11 +235,16 @@ class C03(Prop):
         return fails
 
     def nontrivial(self, case, obs):
+        if case.get('kind') == 'reconnect':
+            return json.dumps(case, sort_keys=True) if not case['c01']['whole'] else None
         if len(obs['rows']) > 1:
             return json.dumps(case, sort_keys=True)
         return None
 
     def stats(self, case, obs):
+        if case.get('kind') == 'reconnect':
+            yield 'kind=reconnect'
+            return
         yield 'type=' + case['t']
         yield 'lp=%s' % case['lp']
         n = len(obs['rows'])
@@ -228,6 +257,8 @@ class C03(Prop):
             yield 'no-data'
 
     def shrink_candidates(self, case):
+        if case.get('kind') == 'reconnect':
+            return
         for k in ('d', 'md'):
             v = case[k]
             for nv in (0, v // 2, v - 1):
